@@ -214,6 +214,7 @@ def oracle(case, real):
       (f'step{i}', case['ops'][i], s['state']) for i, s in enumerate(real['steps'])]
   suspended_ever = False
   tracking = True
+  saved = []
   prev = None
   deferred = None
   for where, op, st in states:
@@ -254,6 +255,14 @@ def oracle(case, real):
       suspended_ever = True
     elif op is not None and op[0] == 'resume':
       tracking = True
+    elif op is not None and op[0] == 'enter_suspend':
+      # a `with suspend_tracking():` block is entered; blocks nest
+      saved.append(tracking)
+      tracking = False
+      suspended_ever = True
+    elif op is not None and op[0] == 'exit_suspend':
+      if saved:
+        tracking = saved.pop()
     if not suspended_ever:
       bad = check_state(st)
       if bad:
